@@ -343,9 +343,15 @@ def run(tier, seed, replay=None):
     base_doc = cbdoc.CbDoc(rng, n_handlers=0)
     for k, (sid, text, frag) in enumerate(cbdoc.NEGATIVE):
         neg_jobs.append({"id": "n%d" % k, "source": base_doc.to_qml(extra=(sid, text)), "modes": ["generate"], "want": []})
+    negatives = list(cbdoc.NEGATIVE)
+    for obj in cbdoc.NEGATIVE_OBJECTS:
+        q = base_doc.to_qml().rstrip()
+        assert q.endswith("}")
+        neg_jobs.append({"id": "n%d" % len(neg_jobs), "source": q[:-1] + "    " + obj + "\n}\n", "modes": ["generate"], "want": []})
+        negatives.append(("root", obj, "not supported"))
     out = common.translate(neg_jobs, tag="c13n")
     n_neg = 0
-    for k, (sid, text, frag) in enumerate(cbdoc.NEGATIVE):
+    for k, (sid, text, frag) in enumerate(negatives):
         rs = out.results.get("n%d" % k)
         if not rs:
             v.inconc("no result for negative case")
